@@ -49,6 +49,13 @@ Proof.
   induction 1 as [|x r Hx Hr IH]; simpl; auto. rewrite Hx, IH. reflexivity.
 Qed.
 
+Lemma keep_tail_idem out t tr rest : keep_tail out t = (tr, rest) -> keep_tail out tr = (tr, []).
+Proof.
+  destruct out as [|o1 out]; simpl.
+  - intros E; inversion E; subst. reflexivity.
+  - intros E. pose proof (split_lf0_fst_lf0 t) as H. rewrite E in H. simpl in H. now apply split_lf0_all.
+Qed.
+
 Theorem norm_idem_unsorted c ts :
   sort_declaration c = false -> norm c (norm c ts) = norm c ts.
 Proof.
@@ -56,9 +63,9 @@ Proof.
   unfold norm, norm_items in Hn.
   destruct (to_items [] ts) as [its tail].
   destruct (run c st0 [] (map (restyle_item c) its)) as [out tl1] eqn:Er.
-  pose proof (split_lf0_app (tl1 ++ map (restyle c) tail)) as Hsp.
-  pose proof (split_lf0_fst_lf0 (tl1 ++ map (restyle c) tail)) as Hlf.
-  destruct (split_lf0 (tl1 ++ map (restyle c) tail)) as [tr rest]. simpl in Hsp, Hlf.
+  pose proof (keep_tail_app out (tl1 ++ map (restyle c) tail)) as Hsp.
+  pose proof (keep_tail_fst_lf0 out (tl1 ++ map (restyle c) tail)) as Hlf.
+  destruct (keep_tail out (tl1 ++ map (restyle c) tail)) as [tr rest] eqn:Ek. simpl in Hsp, Hlf.
   (* every comment of the result is restyled *)
   assert (Hst : Forall (styled c) (item_comments out ++ tl1)).
   { pose proof (run_comments c _ _ _ _ _ Er) as Hc. simpl in Hc. rewrite Hc, item_comments_restyle.
@@ -82,6 +89,6 @@ Proof.
   unfold norm. rewrite to_items_of_items. unfold norm_items.
   rewrite (restyle_items_styled c out Hst1).
   rewrite (run_replay c _ st0 st0 [] out tl1 inv_st0 rel_st0 ltac:(intros F; destruct F) ltac:(intros F; destruct F) Er).
-  simpl app. rewrite (map_restyle_styled c tr Hst3). rewrite (split_lf0_all tr Hlf).
+  simpl app. rewrite (map_restyle_styled c tr Hst3). rewrite (keep_tail_idem _ _ _ _ Ek).
   now rewrite Hres.
 Qed.
